@@ -87,8 +87,11 @@ class UAIReader(object):
             )
             grammar += function_grammar
 
+        # Values may be written in scientific notation (e.g. 1e-05).
         floatnumber = Combine(
-            Word(nums) + Optional(Literal(".") + Optional(Word(nums)))
+            Word(nums)
+            + Optional(Literal(".") + Optional(Word(nums)))
+            + Optional(Regex("[eE][+-]?[0-9]+"))
         )
         for function in range(0, self.no_functions):
             no_values_grammar = Word(nums).setResultsName(
